@@ -28,6 +28,15 @@ def cases(tier, seed):
         c["mode"] = "spelling"
         c["rseed"] = rng.randrange(1 << 30)
         yield c
+    for flat, nest in (("x.y", ["x", "y"]), ("x.y.z", ["x", "y", "z"]), ("x.y.z.w", ["x", "y", "z", "w"]), ("p.q", ["p"]), ("v1.0", [])):
+        states = {flat: {}}
+        cur = states
+        for k in nest:
+            cur[k] = {"states": {}}
+            if k != nest[-1]:
+                cur[k]["initial"] = nest[nest.index(k) + 1]
+            cur = cur[k]["states"]
+        yield {"mode": "ids", "config": {"id": "m", "initial": flat, "states": states}, "events": ["E1"], "kinds": {}, "path": [flat], "repl": None}
     yield {"mode": "corrupt", "config": {"id": "m", "initial": "a", "states": {"a": {"on": {"E1": {"target": 5}}}, "b": {}}},
            "events": ["E1"], "kinds": {}, "path": ["fixed-nonstring-target"], "repl": 5, "fixed": True}
     for c in M.gen_cases(seed * 472882027 + 2, 60 if tier == "quick" else 400, max_nodes=5, features={"after": 0.3, "history": 0.3}):
@@ -187,6 +196,20 @@ def run_case(case):
         a.pop("interp", None)
         b.pop("interp", None)
         return {"a": a, "b": b, "alt": alt, "changed": alt != case["config"], "limit": bool(M.limit_hits(mark))}
+    if case["mode"] == "ids":
+        from xstate_statemachine import MachineLogic, create_machine
+        try:
+            m = create_machine(copy.deepcopy(case["config"]), logic=MachineLogic())
+        except XStateMachineError as e:
+            return {"stage": "create", "exc": ("library", type(e).__name__), "dups": []}
+        except Exception as e:
+            return {"stage": "create", "exc": ("raw", type(e).__name__, str(e)[:120]), "dups": []}
+        ids, st = [], [m]
+        while st:
+            n = st.pop()
+            ids.append(n.id)
+            st.extend(n.states.values())
+        return {"stage": "ok", "exc": None, "dups": sorted({i for i in ids if ids.count(i) > 1})}
     cfg = case["config"] if case.get("fixed") else corrupt(case["config"], case["path"], case["repl"])
     from xstate_statemachine import SyncInterpreter, create_machine
     stage, exc = "create", None
@@ -228,6 +251,8 @@ def post_check(case, res):
             elif a["actions"] != b["actions"]:
                 out.append({"key": "spelling:actions-differ", "detail": f"alt={json.dumps(res['alt'], default=str)[:600]}"})
         return out
+    if res.get("dups"):
+        out.append({"key": "ids:ambiguous-state-ids-accepted", "detail": f"{res['dups']} both denote two different states of {json.dumps(case['config'])[:300]}"})
     if res["exc"] and res["exc"][0] == "raw":
         out.append({"key": f"corrupt/{res['stage']}:raw-{res['exc'][1]}", "detail": f"path={case['path']} repl={case['repl']!r}: {res['exc'][2]}"})
     return out
